@@ -572,6 +572,10 @@ func (e *engine) finishCall(c int, o *StepObs) bool {
 	k := len(x.hbPC)
 	x.hbPC = append(x.hbPC, 0)
 	x.hbCanc = append(x.hbCanc, false)
+	if !x.mkThis {
+		x.hbPC[k] = 2 // success was reported without an acquisition: no writer was started
+		return true
+	}
 	if p, _ := e.s.WaitPending(lsched.Actor{C: c, HB: k}, nil, 4*time.Second); p == nil {
 		e.out.Stuck = "heartbeat writer did not start"
 		return false
@@ -913,7 +917,8 @@ type job struct {
 	out *Outcome
 }
 
-func runAll(jobs []*job, runRoot string, par int) {
+func runAll(jobs []*job, runRoot string, par int, budget time.Duration) (skipped int) {
+	start := time.Now()
 	var wg sync.WaitGroup
 	ch := make(chan *job)
 	for i := 0; i < par; i++ {
@@ -926,10 +931,16 @@ func runAll(jobs []*job, runRoot string, par int) {
 		}()
 	}
 	for _, j := range jobs {
+		if time.Since(start) > budget {
+			j.out = nil
+			skipped++
+			continue
+		}
 		ch <- j
 	}
 	close(ch)
 	wg.Wait()
+	return
 }
 
 func replayOf(sc *Scenario, o *Outcome) *Scenario {
@@ -964,6 +975,14 @@ func main() {
 		for _, k := range keys {
 			r.CountN("obs:"+k, o.Kinds[k])
 		}
+		for _, f := range o.Fails {
+			sig := f.Sig
+			if sc.Atomic {
+				// under the atomic-release restriction NOTHING may fail (lock_mutex_under_atomic_release): not a known finding
+				sig = "under-atomic-release:" + sig
+			}
+			r.Fail(sig, f.What, replayOf(sc, o))
+		}
 		if o.Stuck != "" {
 			// confirm 3 of 3 before reporting (a stall of the machine must not raise an alarm); only the first two stuck
 			// scenarios are re-run, the others are counted
@@ -987,14 +1006,6 @@ func main() {
 		if o.Invalid != "" {
 			r.Count("invalid-item")
 			r.Note("scenario " + sc.Tag + "/" + sc.Backend + ": " + o.Invalid)
-		}
-		for _, f := range o.Fails {
-			sig := f.Sig
-			if sc.Atomic {
-				// under the atomic-release restriction NOTHING may fail (lock_mutex_under_atomic_release): not a known finding
-				sig = "under-atomic-release:" + sig
-			}
-			r.Fail(sig, f.What, replayOf(sc, o))
 		}
 		if emitCase && sc.Backend == "os" && !sc.NoParent {
 			term := coqCase(sc, o)
@@ -1044,9 +1055,18 @@ func main() {
 		}
 		jobs = append(jobs, &job{sc: &Scenario{Tag: fmt.Sprintf("%s:%d", tag, i), Backend: b, Ovr: ovr, Atomic: atomic, Seed: 1 + r.Rng.Int63n(1<<40), Max: 200 + r.Rng.Intn(250)}})
 	}
-	runAll(jobs, runRoot, 24)
+	budget := 100 * time.Second
+	if r.Thorough() || r.Deep {
+		budget = 20 * time.Minute
+	}
+	if skipped := runAll(jobs, runRoot, 24, budget); skipped > 0 {
+		r.Note(fmt.Sprintf("time budget exhausted: %d scenarios not run", skipped))
+		r.Count("skipped-for-time")
+	}
 	for _, j := range jobs {
-		process(j, true)
+		if j.out != nil {
+			process(j, true)
+		}
 	}
 	r.Finish()
 }
